@@ -886,12 +886,21 @@ def check_reorder(rep, prog, m):
                 wanted = ast.unparse(lc.generators[0].iter)
                 n_found += 1
                 rep.ob('R-IDX', '%s new_order' % q, ok, ast.unparse(n)[:110], rel, n.lineno, what='new_order[k] = 1-based position of the k-th wanted deme in the current order (%s -> %s)' % (cur, wanted))
-    if n_found < 3:
-        raise AnalysisError('expected >= 3 new_order computations, found %d' % n_found)
+    # (the debug and the normal tail of SFS each had their own copy; merged tails leave one per function)
+    if n_found < 2:
+        raise AnalysisError('expected a new_order computation in SFS and in _compute_sfs, found %d' % n_found)
     # SFS: final reorder then from_phi with the sampled order
     f = prog.func(DM, 'SFS')
     calls = [c for c in own_nodes(f) if isinstance(c, ast.Call) and dotted(c.func) == 'dadi.Spectrum.from_phi']
-    ok = any(ast.unparse(c.args[0]) == 'phi' and ast.unparse(c.args[1]) == 'sample_sizes' and any(k.arg == 'pop_ids' and ast.unparse(k.value) == 'sampled_pops' for k in c.keywords) for c in calls)
+    def reordered(name):
+        """the name holds the density after PhiManip.reorder_pops(<density>, new_order)"""
+        for a_ in own_nodes(f):
+            if isinstance(a_, ast.Assign) and len(a_.targets) == 1 and isinstance(a_.targets[0], ast.Name) and a_.targets[0].id == name and isinstance(a_.value, ast.Call) and \
+                    _last(dotted(a_.value.func)) == 'reorder_pops' and len(a_.value.args) == 2 and ast.unparse(a_.value.args[1]) == 'new_order':
+                return True
+        return False
+    ok = any(isinstance(c.args[0], ast.Name) and reordered(c.args[0].id) and ast.unparse(c.args[1]) == 'sample_sizes' and any(k.arg == 'pop_ids' and ast.unparse(k.value) == 'sampled_pops' for k in c.keywords)
+             for c in calls if len(c.args) >= 2)
     rep.ob('R-IDX', 'SFS from_phi', ok, 'from_phi(phi, sample_sizes, ..., pop_ids=sampled_pops) after reordering to sampled_pops', rel, f.lineno, what='axes, sample sizes and labels follow the requested deme order')
     # break points
     ge = prog.func(DM, '_get_demographic_events')
